@@ -77,6 +77,45 @@ pub mod serialize;
 mod take;
 mod world;
 
+/// Instrumentation for external verification harnesses; compiled only with `--cfg hecs_verif`
+#[cfg(hecs_verif)]
+#[doc(hidden)]
+pub mod verif {
+    use core::sync::atomic::{AtomicUsize, Ordering};
+
+    pub use crate::borrow::AtomicBorrow;
+
+    static YIELD_HOOK: AtomicUsize = AtomicUsize::new(0);
+
+    /// Install (or remove) a callback invoked immediately before each atomic operation of the
+    /// borrow flag protocol and of concurrent entity reservation
+    pub fn set_yield_hook(hook: Option<fn(u32)>) {
+        YIELD_HOOK.store(hook.map_or(0, |f| f as usize), Ordering::SeqCst);
+    }
+
+    #[inline]
+    pub(crate) fn yield_point(site: u32) {
+        let hook = YIELD_HOOK.load(Ordering::Relaxed);
+        if hook != 0 {
+            let hook: fn(u32) = unsafe { core::mem::transmute(hook) };
+            hook(site);
+        }
+    }
+
+    /// Bookkeeping of the entity allocator
+    #[derive(Debug, Clone, PartialEq, Eq)]
+    pub struct EntitiesState {
+        /// `(generation, archetype, index)` for each slot of `meta`
+        pub meta: crate::alloc::vec::Vec<(u32, u32, u32)>,
+        /// The freelist followed by reserved IDs
+        pub pending: crate::alloc::vec::Vec<u32>,
+        /// Boundary between freelist and reserved IDs; negative when fresh IDs are reserved
+        pub free_cursor: isize,
+        /// Number of live entities
+        pub len: u32,
+    }
+}
+
 pub use archetype::{Archetype, ArchetypeColumn, ArchetypeColumnMut, TypeIdMap, TypeInfo};
 pub use batch::{BatchIncomplete, BatchWriter, ColumnBatch, ColumnBatchBuilder, ColumnBatchType};
 pub use bundle::{
